@@ -163,6 +163,13 @@ class DocstringSectionRenderer:
         return writer.getvalue().splitlines()
 
 
+def escape_docstring_text(text: str) -> str:
+    """Make free text inert inside a triple-double-quoted docstring (identity for plain text)."""
+    text = text.replace("\\", "\\\\").replace('"""', '\\"\\"\\"')
+    # NUL cannot appear in source code at all
+    return text.replace("\x00", "\\x00")
+
+
 class DocumentationWriter:
     """
     Renders a DocumentationBlock into a Google-style Python docstring.
@@ -218,5 +225,8 @@ class DocumentationWriter:
             lines.append("")
             lines.append("Raises:")
             lines.extend(self.section_renderer.render_raises(doc.raises, indent + 4))
+        # Text from the spec must stay inert inside the docstring: escape backslashes (no accidental escape
+        # sequences / line continuations) and triple double-quotes (which would close the docstring)
+        lines = [lines[0]] + [escape_docstring_text(line) for line in lines[1:]]
         lines.append('"""')
         return "\n".join(lines)
